@@ -4,6 +4,7 @@ import core, lib
 from core import call_matches, call_names, op_place, backward_slice
 from props import shared
 
+WITNESSES = ['HandleIsOpaque']      # compile-fail witnesses against the public surface (thorough tier; engine.WITNESSES)
 LEVEL = 'other'
 FLOOR = 78      # 70% of the 112 obligation instances derived on the tree the rules were last reviewed against
 EXPLANATION = ('Clauses decided: publish-before-acknowledge in commit_raw, hand-over order between commit overlay / log overlay / tables, '
